@@ -80,11 +80,16 @@ def asbuilt():
 
 def catch():
     rows = ['| seed | file(s) | change | caught by (quick tier) |', '|---|---|---|---|']
-    caught = with_input = total = 0
+    caught = with_input = total = neutral = 0
     for f in sorted((VERIF / 'seeded').glob('*/meta.json')):
         m = json.loads(f.read_text())
         summary = (m.get('summary') or '').replace('|', '/').replace('\n', ' ')[:160]
         files = ', '.join(Path(x).name for x in (m.get('files') or []))[:60]
+        if m.get('neutralised_by'):
+            neutral += 1
+            rows.append(f'| {m["id"]} | {files} | {summary} | no longer a violation: its demonstration passes on the '
+                        f'repaired tree ({m["neutralised_by"]}) |')
+            continue
         by = ', '.join(p + ('' if p in m.get('detected_with_failing_input', []) else ' (no input)')
                        for p in m.get('detected_by', [])) or '— missed'
         rows.append(f'| {m["id"]} | {files} | {summary} | {by} |')
@@ -92,7 +97,8 @@ def catch():
         caught += bool(m.get('detected_by'))
         with_input += bool(m.get('detected_with_failing_input'))
     rows.append('')
-    rows.append(f'{total} confirmed seeded changes; {caught} caught by the quick tier, {with_input} of them with a '
+    rows.append(f'{total} seeded changes that break their property on the current tree ({neutral} more were made harmless '
+                f'by later repairs); {caught} caught by the quick tier, {with_input} of them with a '
                 f'concrete failing input in the replay file.')
     return '\n'.join(rows)
 
